@@ -720,3 +720,42 @@ Example C14_server_pg_nonvacuous :
   (* the deferred search_path reset of InspectRealm fails (call 5 of Snapshot): Snapshot fails *)
   DevServer.r_out (DevServerPg.run_sess_pg None [] (DevServer.mkSrv [DevServer.mkSch 0 []] (Some 0%N)) (DevServer.fault_stream [5] 10)) = DevServer.SSnapErr.
 Proof. vm_compute. repeat split. Qed.
+
+(** Exactly what does hold for a connection bound to a schema: unique schema
+    names, the bound schema exists and is empty, and every statement of the
+    script stays inside it ([local_stmt]: CREATE/DROP TABLE unqualified or
+    qualified with the bound schema; rejected statements allowed) => whatever
+    the script creates, drops or fails on, with no call failing for other
+    reasons the RestoreFunc runs, returns nil, and the server -- every schema,
+    the foreign ones included -- is exactly as it was found. *)
+From Atlas Require Dev.DevServerBound Dev.DevServerPgBound.
+
+Theorem C14_handed_back_empty_bound_mysql_except :
+  forall (c : N) (l : list DevServer.sch) (s0 : DevServer.sch) (body : list DevServer.sstmt),
+  NoDup (map DevServer.s_id l) -> DevServer.find_sch c l = Some s0 -> DevServer.s_tabs s0 = [] ->
+  forallb (DevServer.local_stmt c) body = true ->
+  let r := DevServer.run_sess body (DevServer.mkSrv l (Some c)) [] in
+  DevServer.r_ran r = true /\ DevServer.r_restored r = true /\ DevServer.r_srv r = DevServer.mkSrv l (Some c) /\
+  (DevServer.r_out r = DevServer.SOk \/ exists k, DevServer.r_out r = DevServer.SFail k).
+Proof. intros c l s0 body Hd Hf He Hl. exact (DevServerBound.handed_back_bound c l s0 Hd Hf He body Hl). Qed.
+Print Assumptions C14_handed_back_empty_bound_mysql_except.
+
+Theorem C14_handed_back_empty_bound_pg_except :
+  forall (c : N) (l : list DevServer.sch) (s0 : DevServer.sch) (body : list DevServer.sstmt),
+  NoDup (map DevServer.s_id l) -> DevServer.find_sch c l = Some s0 -> DevServer.s_tabs s0 = [] ->
+  forallb (DevServer.local_stmt c) body = true ->
+  let r := DevServerPg.run_sess_pg (Some c) body (DevServer.mkSrv l (Some c)) [] in
+  DevServer.r_ran r = true /\ DevServer.r_restored r = true /\ DevServer.r_srv r = DevServer.mkSrv l (Some c) /\
+  (DevServer.r_out r = DevServer.SOk \/ exists k, DevServer.r_out r = DevServer.SFail k).
+Proof. intros c l s0 body Hd Hf He Hl. exact (DevServerPgBound.handed_back_bound_pg c l s0 Hd Hf He body Hl). Qed.
+Print Assumptions C14_handed_back_empty_bound_pg_except.
+
+Example C14_bound_except_nonvacuous :
+  (* bound to s1 next to a foreign s2 with a table: create two tables, fail, restore drops both; s2 untouched *)
+  let srv := DevServer.mkSrv [DevServer.mkSch 1 []; DevServer.mkSch 2 [7%N]] (Some 1%N) in
+  forallb (DevServer.local_stmt 1) [DevServer.SCt None 1; DevServer.SCt (Some 1%N) 2; DevServer.SBadS] = true /\
+  DevServer.r_trace (DevServer.run_sess [DevServer.SCt None 1; DevServer.SCt (Some 1%N) 2; DevServer.SBadS] srv [])
+    = [DevServer.ECt 1 1; DevServer.ECt 1 2; DevServer.EDt 1 1; DevServer.EDt 1 2] /\
+  DevServer.r_srv (DevServer.run_sess [DevServer.SCt None 1; DevServer.SCt (Some 1%N) 2; DevServer.SBadS] srv []) = srv /\
+  DevServer.local_stmt 1 (DevServer.SCs 2 false) = false.
+Proof. vm_compute. repeat split. Qed.
